@@ -190,6 +190,19 @@ def expected_status(req, w):
     return 200, (f1 > 0 or f2 > 0)
 
 
+WRAPPED = [0]   # cases whose exact sums leave the int64 range (evidence)
+
+
+def w64(x):
+    """Go's int64: the exact integer reduced into [-2^63, 2^63). Sums that leave the range are outside the
+    property's domain (Props.C18.int64_no_wrap_sufficient); there the view must show the wrapped sum
+    (int64_sum_wraps), which is what this oracle then demands."""
+    y = ((x + 2 ** 63) % 2 ** 64) - 2 ** 63
+    if y != x:
+        WRAPPED[0] += 1
+    return y
+
+
 def property_fails_on(op, impl):
     """Evaluate C18 on one case and the implementation's own answer (independent of the Lean model)."""
     if op.startswith("getv1 "):
@@ -265,13 +278,14 @@ def property_fails_on(op, impl):
             return "unreadable %s view %r" % (kind, body[:120])
         cs = [int(x) for x in m.group(1).split(",")]
         got = dict((k, cs[i]) for k, i in keys.items())
+        tot = dict((k, w64(v)) for k, v in tot.items())
         if got != tot:
             bad = sorted(k for k in tot if got[k] != tot[k])
             return "%s view shows %s; the sum over the responding nodes is %s" % (
                 kind, dict((k, got[k]) for k in bad), dict((k, tot[k]) for k in bad))
-        if cs[1] != cs[0] - cs[2]:
+        if cs[1] != w64(cs[0] - cs[2]):
             return "%s view: memory_depth %d is not depth - backend_depth" % (kind, cs[1])
-        if cs[8] != cs[9] + cs[10] + cs[11]:
+        if cs[8] != w64(cs[9] + cs[10] + cs[11]):
             return "%s view: delivery_msg_count %d is not the sum of the three locality counters" % (kind, cs[8])
         if (m.group(2) == "1") != paused:
             return "%s view: paused=%s but the nodes report paused=%s" % (kind, m.group(2), paused)
@@ -287,6 +301,15 @@ def property_fails_on(op, impl):
             gotc = [] if m.group(3) == "-" else m.group(3).split("+")
             if sorted(gotc) != sorted(clients):
                 return "channel view lists clients %s; the responding nodes report %s" % (sorted(gotc), sorted(clients))
+    if kind == "node":
+        m = re.match(r"(\S+) (-?\d+) (-?\d+) T\[", body)
+        st = stats_of(w, req["a"], "")
+        if m and st is not None:
+            tm = w64(sum(t["msg"] for t in st))
+            tc = sum(1 for t in st for c in t["channels"] if c is not None for k in c["clients"] if k is not None)
+            if int(m.group(2)) != tm or int(m.group(3)) != tc:
+                return "node view of %s shows total_messages=%s total_clients=%s; its topics report %d messages and %d clients" % (
+                    req["a"], m.group(2), m.group(3), tm, tc)
     if kind == "counter":
         prods, _, _ = stage1(req, w)
         exp = {}
@@ -297,6 +320,7 @@ def property_fails_on(op, impl):
                         key = "%s:%s:%s" % (t["name"], c["name"], p)
                         exp[key] = exp.get(key, 0) + c["msg"]
         got = {} if body == "-" else dict((kv.rsplit("=", 1)[0], int(kv.rsplit("=", 1)[1])) for kv in body.split(","))
+        exp = dict((k, w64(v)) for k, v in exp.items())
         if got != exp:
             bad = sorted(k for k in set(got) | set(exp) if got.get(k) != exp.get(k))[:3]
             return "counter view shows %s; the nodes report %s" % (dict((k, got.get(k)) for k in bad), dict((k, exp.get(k)) for k in bad))
@@ -352,6 +376,7 @@ def topic_channels_fail(req, w, prods, body):
         return "topic view lists channels %s; the responding nodes report %s" % (sorted(got), sorted(exp))
     for n, tot in exp.items():
         cs = got[n][0]
+        tot = dict((k, (w64(v) if k != "paused" else v)) for k, v in tot.items())
         bad = [k for k, i in CH_FIELDS if cs[i] != tot[k]]
         if bad:
             return "topic view, channel %r: %s; the sums over the node reports are %s" % (
@@ -413,7 +438,9 @@ def run_stream(ctx, binp, name, test, n):
         ops = open(opsp).read().splitlines() if os.path.exists(opsp) else []
         impl = open(implp).read().splitlines() if os.path.exists(implp) else []
         for l in out.splitlines():
-            if l.startswith("E7-"):
+            if l.startswith("E7-UNSORTED "):
+                ctx.violation("order:" + l.split()[1], "a list of the " + l[12:], "harness line: %s\n" % l)
+            elif l.startswith("E7-"):
                 ctx.corr.setdefault("distribution", []).append(l)
         if rc == 0:
             ops_all += ops
@@ -455,7 +482,11 @@ def run(ctx):
         "list order; order independence is a theorem)",
     ]
     ctx.assumptions += [
-        "counter sums stay below 2^63 (model counters are unbounded integers; the generator keeps sums in range)",
+        "the sum clauses (sum_fields, channels_merge, …) speak about exact integers; what nsqadmin shows is the exact sum "
+        "reduced to int64 (Props.C18.int64_sum_wraps / counters_go_sum) and equals it iff it fits (int64_wrap_exact; "
+        "sufficient: non-negative counters with a sum below 2^63, int64_no_wrap_sufficient). Clusters whose sums leave "
+        "the range are generated on purpose and compared against the wrapped sums",
+        "Go language semantics of int64 +, -, += (two's complement wrap-around) — the model's wrap64",
         "float latency aggregates (E2eProcessingLatencyAggregate.Add) are not modelled or compared beyond the nil dereference",
         "the per-node channel lists nested inside /api/topics/:t `nodes[]` are not compared (they alias the merged channel objects)",
     ]
@@ -535,6 +566,7 @@ def run(ctx):
                 k = o.split()[1] + ":" + i.split()[0]
                 kinds[k] = kinds.get(k, 0) + 1
             ctx.corr.setdefault("outcomes", {})[name] = kinds
+            ctx.corr["int64_wrapped_sums_checked"] = WRAPPED[0]
             for o, i in list(zip(ops, impl))[:2]:
                 ctx.add_sample({"op": o[:400], "impl": i[:400]})
             failing = set()
